@@ -229,9 +229,12 @@ func Verif_C14_MD4WriteStepQ() {
 	c14WriteStep(nx, []int{0, 1, rem - 1, rem, rem + 1, rem + 64, rem + 65, 130}[verifrt.Choose(0, 7)])
 }
 
-// Verif_C14_MD4WriteStepT: Write step for EVERY nx 0..63 and every |p| 0..130.
+// Verif_C14_MD4WriteStepT: Write step for EVERY nx 0..63 and |p| in
+// {0,1,2,rem-1,rem,rem+1,rem+63,rem+64,rem+65,130} (rem = 64-nx).
 func Verif_C14_MD4WriteStepT() {
-	c14WriteStep(verifrt.Choose(0, 63), verifrt.Choose(0, 130))
+	nx := verifrt.Choose(0, 63)
+	rem := 64 - nx
+	c14WriteStep(nx, []int{0, 1, 2, rem - 1, rem, rem + 1, rem + 63, rem + 64, rem + 65, 130}[verifrt.Choose(0, 9)])
 }
 
 // Verif_C14_MD4SumStep: Sum step for EVERY nx 0..63 (all values of len with len mod 64 = nx,
